@@ -55,7 +55,10 @@ def m_store_get(c):
             # a read that opens a read-modify-write window of an adjacency list: the `at`-th one sees the store as it was
             # before the other thread's operation (that operation ran entirely inside this window)
             n = c.st.env.get('adj_gets', 0)
-            if n == stale['at']:
+            # the stale value is the pre-B value only if A itself has not written this list earlier in its run; otherwise the
+            # schedule is not expressible by this encoding and the window is skipped (the read sees the current value)
+            own = any(z3.is_true(z3.simplify(k_.id == key.id)) for k_ in c.st.env.get('a_puts', []))
+            if n == stale['at'] and not own:
                 old = Map('std::string::String', 'TensorData', list(stale['keys']), list(stale['vals']))
                 j = map_find(c.st, old, key, 'store.get(stale)')
                 c.st.env['adj_gets'] = n + 1
@@ -85,6 +88,8 @@ def m_store_put(c):
     m = kv_of(c.st)
     key = deref(c.st, c.args[1])
     i = map_find(c.st, m, key, 'store.put')
+    if c.st.env.get('stale') is not None:
+        c.st.env['a_puts'] = c.st.env.get('a_puts', []) + [key]
     if i is None:
         m.keys.append(key)
         m.vals.append(c.args[2])
@@ -469,6 +474,7 @@ for es in CONC_SETS:
                     b_locked = [x[1] for x in s1.notes if x[0] == 'list_lock']
                     s1.env['stale'] = {'at': k, 'keys': snap_keys, 'vals': snap_vals}
                     s1.env['adj_gets'] = 0
+                    s1.env['a_puts'] = []
                     s1.env['stale_used'] = False
                     argsA = mkargs(s1, a1, a2, 'new') if aop == 'create_edge' else [ref(s1.roots['ge']), Int(a1, False)]
                     resA = run(s1, 'GraphEngine::' + aop, argsA)
